@@ -41,15 +41,15 @@ def plan(tier, seed):
                               first=first, L=L, hashseed=p))
     if tier == 'thorough':
         # one pair at L=6, split by the first two steps
-        for first in range(11):
+        for first in (0, 2, 5):
             for second in range(11):
                 specs.append(dict(kind='exh', pair=seed % len(FG),
                                   first=first, second=second, L=6,
                                   hashseed=first))
-    nr = 48 if tier == 'thorough' else 12
+    nr = 128 if tier == 'thorough' else 12
     for k in range(nr):
         specs.append(dict(kind='random', sub=k, n=3 + k % 4,
-                          steps=2000 if tier == 'thorough' else 400,
+                          steps=5000 if tier == 'thorough' else 400,
                           hashseed=k))
     meta = dict(
         rule=RULE,
